@@ -2,7 +2,7 @@
 REG = dict(
     engine='E1-enum',
     technique='bounded-exhaustive enumeration of calls (every built-in/prelude function, method, operator and syntax form x argument vectors over a value pool), executed on the real interpreter',
-    text="Every public prelude/built-in function and method (table parsed from the repository's own .gdn files at run time, so new functions are picked up) is called with every argument vector over a 20-value pool (full product for <=2 positions, deviation-bounded beyond), plus arity n-1/n+1; every binary operator and +=/-= over pool x pool; 45 syntax forms x pool. Outcome must be a value or a Garden error: a Rust panic, abort, signal or non-termination is a violation. Exhaustive within the pool and deviation bound.",
+    text="Every public prelude/built-in function and method (table parsed from the repository's own .gdn files at run time, so new functions are picked up) is called with every argument vector over a 20-value pool (full product for <=2 positions, deviation-bounded beyond), plus arity n-1/n+1; every binary operator and +=/-= over pool x pool; 66 syntax forms x pool. Outcome must be a value or a Garden error: a Rust panic, abort, signal or non-termination is a violation. Exhaustive within the pool and deviation bound.",
     note='One call per program with a fresh Env, tick limit 200k; effectful built-ins run sandboxed and (in a scratch directory) unsandboxed; `read_line` only through the real CLI with stdin at EOF. Values outside the pool and call sequences are not covered.',
     design_ref='DESIGN.md §6 C02',
 )
@@ -87,10 +87,15 @@ def run(ctx):
              "let x: Int = {v}\nx", "let x: List<Int> = {v}\nx", "let x: Fun<(Int), Int> = {v}\nx", "typed({v})", "opt({v})", "Dict[{v} => 1]", "[{v}, 1]", "Cust({v})", "Some({v})", "Red({v})",
              "let x = 1\nx = {v}\nx + 1", "try {{ throw({v}) }} catch (e) {{ 1 }}", "dbg({v})", "string_repr({v})", "let f = fun(a: Int): Int {{ a }}\nf({v})", "let f = fun(a) {{ a }}\nf({v}, {v})",
              "[1, 2].map({v})", "[1, 2].filter({v})", "test t {{ assert({v}) }}", "assert({v} == {v})", "assert({v} < 1)", "let l = [{v}]\nl.contains({v})", "let d = Dict[\"a\" => {v}]\nd.get(\"a\")",
-             "println({v})", "{v}.or_throw()", "{v}.or_value(1)"]
+             "println({v})", "{v}.or_throw()", "{v}.or_value(1)",
+             # assignment and update of every kind of name: local, parameter, global function, built-in, constructor, type, undefined
+             "typed = {v}", "println = {v}", "Red = {v}", "Cust = {v}", "Foo = {v}", "nosuch = {v}", "nosuch += {v}", "typed += {v}", "println -= {v}",
+             "fun g(p) {{ p = {v} p }}\ng(1)", "fun g(p: Int) {{ p += {v} p }}\ng(1)", "let c = fun() {{ typed = {v} }}\nc()", "for i in [1] {{ i = {v} }}",
+             "match Some(1) {{ Some(m) => {{ m = {v} }} None => {{}} }}", "let (a, b) = (1, 2)\na = {v}\nb += {v}", "let _ = {v}", "let x = {v}\nlet x = x\nx",
+             "import \"__fs.gdn\" as zfs\nzfs = {v}", "import \"__fs.gdn\" as zfs\nzfs::nosuch({v})", "{v}::x", "typed::x({v})"]
     for form in forms:
         for v in pool:
-            v2 = f"({v})" if (v.startswith("fun") or v.startswith("-")) and ("{v}." in form) else v
+            v2 = f"({v})" if (v.startswith("fun") or v.startswith("-")) and ("{v}." in form or "{v}::" in form or form.startswith("{v}")) else v
             progs.append((f"form {form.split('{v}')[0].strip()[:18]}…", defs + form.format(v=v2) + "\n", True))
     ctx.bound("value_pool", len(pool))
     ctx.bound("functions_and_methods", len(funs))
@@ -143,7 +148,7 @@ def run(ctx):
         raise Machinery("vacuous: no program succeeded or none raised")
     return ("every public prelude/built-in function and method (parsed from the repository's own .gdn files) called with every argument vector over a 20-value pool "
             "(full product for <=2 positions, else all vectors deviating from a well-typed default in <=bound positions), arity n-1 and n+1; every binary operator and "
-            "+=/-= over pool x pool; 45 syntax forms x pool. One call per program, fresh Env, tick limit 200k, sandbox on (effectful ones also off, in a scratch dir). "
+            "+=/-= over pool x pool; 66 syntax forms x pool. One call per program, fresh Env, tick limit 200k, sandbox on (effectful ones also off, in a scratch dir). "
             "Oracle: outcome is a value or an EvalError; a Rust panic, abort, signal or >20 s is a violation.")
 
 
